@@ -79,9 +79,9 @@ def resetAt (st : Scan) (label : Str) : Scan :=
   if st.global ≠ label then { st with group := 0, inv := auxString, global := label } else st
 
 theorem maximal_S_eq (g : Nat) (inv l gl : Str) (r : PRule) :
-    Gen.Part.maximal_S g inv gl (pyPRuleOf r) =
+    Gen.Part.maximal_S gl g inv (pyPRuleOf r) =
       (let cs := scanStep .S false (resetAt { group := g, inv := inv, lit := l, global := gl } r.label) r
-       (cs.2.group, cs.2.inv, cs.2.global, r.label ++ ['-'] ++ cs.1)) := by
+       (cs.2.global, cs.2.group, cs.2.inv, r.label ++ ['-'] ++ cs.1)) := by
   unfold Gen.Part.maximal_S scanStep resetAt pyPRuleOf
   rw [aux_eq]
   simp only [tt_bnode]
@@ -92,9 +92,9 @@ theorem maximal_S_eq (g : Nat) (inv l gl : Str) (r : PRule) :
   · by_cases h2 : startsWith r.sInv AUXILIAR_UNIQUE_REPLACING_STRING = true <;> simp [h0, h1, h2]
 
 theorem maximal_P_eq (g : Nat) (inv l gl : Str) (e : Bool) (r : PRule) :
-    Gen.Part.maximal_P g inv gl e (pyPRuleOf r) =
+    Gen.Part.maximal_P gl g inv e (pyPRuleOf r) =
       (let cs := scanStep .P e (resetAt { group := g, inv := inv, lit := l, global := gl } r.label) r
-       (cs.2.group, cs.2.inv, cs.2.global, r.label ++ ['-'] ++ cs.1)) := by
+       (cs.2.global, cs.2.group, cs.2.inv, r.label ++ ['-'] ++ cs.1)) := by
   unfold Gen.Part.maximal_P scanStep resetAt pyPRuleOf
   rw [aux_eq]
   by_cases h0 : gl = r.label <;> cases e
@@ -104,9 +104,9 @@ theorem maximal_P_eq (g : Nat) (inv l gl : Str) (e : Bool) (r : PRule) :
   · by_cases h1 : r.pInv = AUXILIAR_UNIQUE_REPLACING_STRING <;> simp [h0, h1]
 
 theorem maximal_G_eq (g : Nat) (inv l gl : Str) (e : Bool) (r : PRule) :
-    Gen.Part.maximal_G g inv gl e (pyPRuleOf r) =
+    Gen.Part.maximal_G gl g inv e (pyPRuleOf r) =
       (let cs := scanStep .G e (resetAt { group := g, inv := inv, lit := l, global := gl } r.label) r
-       (cs.2.group, cs.2.inv, cs.2.global, r.label ++ ['-'] ++ cs.1)) := by
+       (cs.2.global, cs.2.group, cs.2.inv, r.label ++ ['-'] ++ cs.1)) := by
   unfold Gen.Part.maximal_G scanStep resetAt pyPRuleOf
   rw [aux_eq]
   by_cases h0 : gl = r.label <;> cases e
@@ -117,9 +117,9 @@ theorem maximal_G_eq (g : Nat) (inv l gl : Str) (e : Bool) (r : PRule) :
 
 /-- the object pass: note that `current_literal_type` is NOT reset at a group boundary (in the source and in the model) -/
 theorem maximal_O_eq (g : Nat) (inv l gl : Str) (r : PRule) :
-    Gen.Part.maximal_O g inv l gl (pyPRuleOf r) =
+    Gen.Part.maximal_O gl g inv l (pyPRuleOf r) =
       (let cs := scanStep .O false (resetAt { group := g, inv := inv, lit := l, global := gl } r.label) r
-       (cs.2.group, cs.2.inv, cs.2.lit, cs.2.global, r.label ++ ['-'] ++ cs.1)) := by
+       (cs.2.global, cs.2.group, cs.2.inv, cs.2.lit, r.label ++ ['-'] ++ cs.1)) := by
   unfold Gen.Part.maximal_O scanStep resetAt pyPRuleOf
   rw [aux_eq]
   simp only [tt_bnode, tt_lit, pyStrOpt_eq]
@@ -253,15 +253,17 @@ theorem sort_keys :
     Gen.Part.maximal_O_sortKeys = "mapping_partition".toList :: keyNames .O ∧
     Gen.Part.maximal_G_sortKeys = "mapping_partition".toList :: keyNames .G := by decide
 
-/-- every scan starts from the model's initial state -/
+/-- every scan starts from the model's initial state (`current_global_group` of a MAXIMAL pass starts as the label of the row with
+    index 0: `Model.maximalPass`'s `init`) -/
 theorem initial_scalars :
-    (Gen.Part.partial_S_init_current_group, Gen.Part.partial_S_init_current_invariant) = (({} : Scan).group, ({} : Scan).inv) ∧
-    (Gen.Part.partial_P_init_current_group, Gen.Part.partial_P_init_current_invariant) = (({} : Scan).group, ({} : Scan).inv) ∧
-    (Gen.Part.partial_O_init_current_group, Gen.Part.partial_O_init_current_invariant, Gen.Part.partial_O_init_current_literal_type)
-      = (({} : Scan).group, ({} : Scan).inv, ({} : Scan).lit) ∧
-    (Gen.Part.partial_G_init_current_group, Gen.Part.partial_G_init_current_invariant) = (({} : Scan).group, ({} : Scan).inv) ∧
-    (Gen.Part.maximal_S_init_current_group, Gen.Part.maximal_S_init_current_invariant, Gen.Part.maximal_S_init_current_literal_type)
-      = (({} : Scan).group, ({} : Scan).inv, ({} : Scan).lit) := by decide
+    Gen.Part.partial_S_init = (({} : Scan).group, ({} : Scan).inv) ∧
+    Gen.Part.partial_P_init = (({} : Scan).group, ({} : Scan).inv) ∧
+    Gen.Part.partial_O_init = (({} : Scan).group, ({} : Scan).inv, ({} : Scan).lit) ∧
+    Gen.Part.partial_G_init = (({} : Scan).group, ({} : Scan).inv) ∧
+    Gen.Part.maximal_S_init = (({} : Scan).group, ({} : Scan).inv) ∧
+    Gen.Part.maximal_P_init = (({} : Scan).group, ({} : Scan).inv) ∧
+    Gen.Part.maximal_O_init = (({} : Scan).group, ({} : Scan).inv, ({} : Scan).lit) ∧
+    Gen.Part.maximal_G_init = (({} : Scan).group, ({} : Scan).inv) := by decide
 
 /-- `enforce_invariant_non_subset` is computed for the predicate and the graph pass only, from the map-type column against RML_CONSTANT
     (`Model.enforceFor`) -/
